@@ -14,6 +14,6 @@ PROP = dict(
     level_note="TODO",
     assumptions=["bounded"],
     stages=[dict(kind="walk", name="Samplers-c13", module="Samplers", pkg="sample", test="TestVerifSamplers",
-                 harness=["sample/c12_samplers_test.go"], alternatives=_ALTS("c13"),
+                 harness=["sample/c12_export.go", "sample/c12_samplers_test.go"], alternatives=_ALTS("c13"),
                  budget={"quick": 40, "thorough": 300}, dump_workers=8)],
 )
